@@ -4,6 +4,7 @@ import (
 	"encoding/json"
 	"errors"
 	"fmt"
+	"net"
 	"net/http"
 	"net/http/httptest"
 	"os"
@@ -118,7 +119,8 @@ func genConfig(r *hx.Rand, valid bool, sum *hx.Summary) *genCfg {
 		for j := 0; j < ns; j++ {
 			sv := config.UpstreamServerConfig{Addr: "http://127.0.0.1:1", Backup: r.Chance(30)}
 			if bad(3) {
-				sv.Addr = r.Pick([]string{"ftp://x", ""})
+				// wrong or missing scheme, and addresses with the right scheme that do not parse as URLs
+				sv.Addr = r.Pick([]string{"ftp://x", "", "http://10.0.0.1:808O", "http://a b.example:80", "http://[::1", "https://h.example/%zz", "http://h.example:port", "127.0.0.1:3015", "://nohost"})
 				ok = false
 				sum.Count("bad:addr")
 			}
@@ -344,7 +346,7 @@ func serverResolves(addr string) bool {
 func runConfig(seed uint64, n int, tier string, out string, replay string) {
 	rnd := hx.NewRand(seed)
 	sum := hx.NewSummary("config", seed)
-	sum.Rule = "one case = one generated configuration (0-2 compress profiles, 1-2 caches, 1-3 upstreams, 1-4 locations, 1-3 servers; names drawn from small pools so duplicates occur); 45% valid; the others carry 1-3 defects: each kind of dangling reference (upstream on any location incl. later ones, location / cache / compress on a server) and each kind of malformed field (durations, sizes, regexps, addresses, url paths, divide pairs, hostnames, policy, names too long or empty, empty required lists); Validate's verdict is compared, accepted configurations are applied through the five Reset functions and every server is probed; every accepted configuration also goes through Write/Read (YAML file client) with every remark field set to a string from a pool of 35 that need quoting (multi-line with and without final newline, leading/trailing blanks, YAML keywords, numbers, indicators, unicode, CRLF) and is compared field by field, twice in a row through the same client (second document: other remarks, sometimes fewer sections); a Write or Read error on an accepted configuration is reported too; non-trivial = rejected for a reference error or accepted with >= 2 servers; distinct by configuration"
+	sum.Rule = "one case = one generated configuration (0-2 compress profiles, 1-2 caches, 1-3 upstreams, 1-4 locations, 1-3 servers; names drawn from small pools so duplicates occur); 45% valid (of which 15% then get exactly one malformed upstream field: health path, policy or an address — wrong scheme, or right scheme but not parseable as a URL); the others carry 1-3 defects: each kind of dangling reference (upstream on any location incl. later ones, location / cache / compress on a server) and each kind of malformed field (durations, sizes, regexps, addresses, url paths, divide pairs, hostnames, policy, names too long or empty, empty required lists); Validate's verdict is compared, accepted configurations are applied through the five Reset functions and every server is probed; every accepted configuration also goes through Write/Read (YAML file client) with every remark field set to a string from a pool of 35 that need quoting (multi-line with and without final newline, leading/trailing blanks, YAML keywords, numbers, indicators, unicode, CRLF) and is compared field by field, twice in a row through the same client (second document: other remarks, sometimes fewer sections); a Write or Read error on an accepted configuration is reported too; non-trivial = rejected for a reference error or accepted with >= 2 servers; distinct by configuration"
 	header := "From Coq Require Import List NArith ZArith.\nImport ListNotations.\nFrom Pike Require Import Base.Bytes Model.Config Corr.ConfigCorr.\n"
 	w := hx.NewCaseWriter(out, "config", header, "list cf_case", "check_cases", 60, sum)
 	distinct := hx.NewDistinct()
@@ -353,6 +355,25 @@ func runConfig(seed uint64, n int, tier string, out string, replay string) {
 	for i := 0; i < n; i++ {
 		valid := rnd.Chance(45)
 		g := genConfig(rnd, valid, sum)
+		if valid && rnd.Chance(15) && len(g.cfg.Upstreams) > 0 {
+			// an otherwise valid configuration with exactly ONE malformed field in one upstream
+			ui := rnd.Intn(len(g.cfg.Upstreams))
+			u := &g.cfg.Upstreams[ui]
+			switch rnd.Intn(4) {
+			case 0:
+				u.HealthCheck = "ping"
+			case 1:
+				u.Policy = "bogus"
+			default:
+				if len(u.Servers) > 0 {
+					u.Servers[rnd.Intn(len(u.Servers))].Addr = rnd.Pick([]string{"ftp://x", "", "http://10.0.0.1:808O", "http://a b.example:80", "http://[::1", "https://h.example/%zz", "http://h.example:port", "127.0.0.1:3015", "://nohost", "HTTPS://Upper.example:1x"})
+				} else {
+					u.Policy = "bogus"
+				}
+			}
+			g.upOK[ui] = false
+			sum.Count("single-defect:upstream-field")
+		}
 		err := g.cfg.Validate()
 		v := verdictOf(err)
 		var resolved []string
@@ -599,12 +620,13 @@ func runReconfChild(seed uint64, n int, tier string, out string, replay string) 
 func runReconf(seed uint64, n int, tier string, out string, replay string) {
 	rnd := hx.NewRand(seed)
 	sum := hx.NewSummary("reconf", seed)
-	sum.Rule = "one case = a sequence of 2-5 valid configurations (sections added / removed / modified, optional fields set and unset: compress levels, min length, filter, upstream options, location constraints; profile named bestCompression overridden and dropped) applied through the five Reset functions in main.update's order to one process, observed through the exported getters (server bindings and thresholds, upstream options, dispatcher presence and identity, compress levels per profile name, routing probes over 3 hosts x 3 URIs x location names; Go-side additionally (caches c1 and c2 share one persistent store) whether a response cached through each surviving store-backed cache reaches the store, every upstream's full option set and server pool, and for every routing probe the chosen location's rewrites, added headers/query, timeout and the rewritten path) and compared with a FRESH child process that applies only the last configuration; non-trivial = the last configuration differs from the previous one in some section; distinct by the sequence"
+	sum.Rule = "one case = a sequence of 2-5 valid configurations (sections added / removed / modified, optional fields set and unset: compress levels, min length, filter, upstream options, location constraints; profile named bestCompression overridden and dropped) applied through the five Reset functions in main.update's order to one process, observed through the exported getters (server bindings and thresholds, upstream options, dispatcher presence and identity, compress levels per profile name, routing probes over 3 hosts x 3 URIs x location names; Go-side additionally (caches c1 and c2 share one persistent store) whether a response cached through each surviving store-backed cache reaches the store, every upstream's full option set and server pool, and for every routing probe the chosen location's rewrites, added headers/query, timeout and the rewritten path) ; at the start four really listening servers are reduced to one by a single update and, 12 s later, the three removed addresses must refuse connections while the survivor accepts) and compared with a FRESH child process that applies only the last configuration; non-trivial = the last configuration differs from the previous one in some section; distinct by the sequence"
 	header := "From Coq Require Import List NArith ZArith.\nImport ListNotations.\nFrom Pike Require Import Base.Bytes Model.Config Corr.ConfigCorr.\n"
 	w := hx.NewCaseWriter(out, "reconf", header, "list rc_case", "check_reconf", 10, sum)
 	distinct := hx.NewDistinct()
 	self, _ := os.Executable()
 	registerFakeStores()
+	finishListeners := removedServersStopListening(sum)
 	tmpdir, _ := os.MkdirTemp("", "pikeverif-reconf-")
 	defer os.RemoveAll(tmpdir)
 	for i := 0; i < n; i++ {
@@ -787,9 +809,64 @@ func runReconf(seed uint64, n int, tier string, out string, replay string) {
 		sum.Count(fmt.Sprintf("sequence-length-%d", len(seq)))
 		sum.Sample(map[string]interface{}{"configs": cfgJSON[:1], "sequence_length": len(seq), "live_equals_fresh": rep["live_equals_fresh"]})
 	}
+	finishListeners()
 	w.Flush()
 	sum.DistinctNontrivial = distinct.Len()
 	sum.Write(out)
+}
+
+// removedServersStopListening: four servers really listening on local ports; one update removes three
+// of them (and keeps one); after the graceful-close delay the removed addresses must refuse connections
+// and the surviving one must still accept.  Returns the function that evaluates the outcome (called at
+// the end of the family so that the 10 s close delay overlaps the other cases).
+func removedServersStopListening(sum *hx.Summary) func() {
+	addrs := []string{"127.0.0.1:39171", "127.0.0.1:39172", "127.0.0.1:39173", "127.0.0.1:39174"}
+	var opts []server.ServerOption
+	for _, a := range addrs {
+		opts = append(opts, server.ServerOption{Addr: a, Locations: []string{"nl"}, Cache: "nc"})
+	}
+	ss := server.NewServers(opts)
+	_ = ss.Start()
+	dial := func(a string) bool {
+		c, err := net.DialTimeout("tcp", a, 300*time.Millisecond)
+		if err != nil {
+			return false
+		}
+		_ = c.Close()
+		return true
+	}
+	deadline := time.Now().Add(3 * time.Second)
+	for _, a := range addrs {
+		for !dial(a) && time.Now().Before(deadline) {
+			time.Sleep(20 * time.Millisecond)
+		}
+	}
+	for _, a := range addrs {
+		if !dial(a) {
+			sum.Count("listener-scenario-skipped(port busy)")
+			_ = ss.Close
+			return func() {}
+		}
+	}
+	ss.Reset(opts[:1]) // removes three servers in ONE update
+	t0 := time.Now()
+	return func() {
+		if d := 12*time.Second - time.Since(t0); d > 0 {
+			time.Sleep(d)
+		}
+		sum.Count("listener-scenario")
+		var still []string
+		for _, a := range addrs[1:] {
+			if dial(a) {
+				still = append(still, a)
+			}
+		}
+		kept := dial(addrs[0])
+		if len(still) > 0 || !kept {
+			sum.ImplViolations = append(sum.ImplViolations, map[string]interface{}{"property": "C16", "kind": "removed-servers-still-listening", "removed_in_one_update": addrs[1:], "still_accepting_after_12s": still, "surviving_server_accepts": kept})
+		}
+		go func() { _ = ss.Close() }()
+	}
 }
 
 var _ = httptest.NewRecorder
